@@ -33,8 +33,8 @@ structure St where
 def sysActs (c : Cfg) (s : State) : List Act :=
   (List.range c.k).flatMap fun i =>
     [.cLock i, .cGet i, .cPut i, .cMore i, .cNoMore i, .cDecide i, .gFirst i, .gNext i, .gTimeout i,
-     .gRelease i, .sGet i, .callEnter i, .emit i] ++
-    (s.ws i).pr.flatMap (fun e => [Act.callRet i e.cid true])
+     .gRelease i, .sGet i, .emit i] ++
+    (List.range (s.ws i).pd.length).flatMap (fun j => [Act.callEnter i j, Act.callRet i j true])
 
 def enabledSys (c : Cfg) (s : State) : List Act := (sysActs c s).filter (fun a => (step c s a).isSome)
 
@@ -102,22 +102,27 @@ def apply (c : Cfg) (s : State) (name : String) (args : List String) : Except St
   | "bempty" => fire (.gTimeout i)
   | "fset" => fire (.gRelease i)
   | "call" =>
-    match w.pq with
-    | e :: _ =>
-      if Drv.showNats (uidsOf e.batch) != a2 then
-        throw s!"call got [{a2}] but the model hands over [{Drv.showNats (uidsOf e.batch)}]"
-      else if (a1 == "1") != decide (0 < c.b) then throw s!"call argument list-ness {a1} differs from the model"
-      else fire (.callEnter i)
-    | [] => throw "call entered but the model has no released batch"
-  | "ret" => fire (.callRet i (a1.toNat?.getD 0) (a2 == "1"))
+    match w.pd.findIdx? (fun e => e.st == .queued && Drv.showNats (uidsOf e.batch) == a2) with
+    | some j =>
+      if (a1 == "1") != decide (0 < c.b) then throw s!"call argument list-ness {a1} differs from the model"
+      else fire (.callEnter i j)
+    | none => throw s!"call got [{a2}] but the model has no such released batch (released: {w.pd.map (fun e => uidsOf e.batch)})"
+  | "ret" =>
+    let cid := a1.toNat?.getD 0
+    match w.pd.findIdx? (fun e => e.st == .running cid) with
+    | some j => fire (.callRet i j (a2 == "1"))
+    | none => throw s!"call {cid} returned but the model has no such running call"
   | "emit" =>
-    match w.pr with
+    match w.pd with
     | e :: _ =>
       if Drv.showNats (uidsOf e.batch) != a2 then
-        throw s!"outputs written for [{a2}] but the model's oldest call is [{Drv.showNats (uidsOf e.batch)}]"
-      else if e.res != some (a1 == "1") then throw s!"outputs written with ok={a1} but the model's call ended {repr e.res}"
-      else fire (.emit i)
-    | [] => throw "outputs written but the model has no call in flight"
+        throw s!"outputs written for [{a2}] but the model's oldest batch is [{Drv.showNats (uidsOf e.batch)}]"
+      else match e.st with
+        | .done _ ok =>
+          if ok != (a1 == "1") then throw s!"outputs written with ok={a1} but the model's call ended ok={ok}"
+          else fire (.emit i)
+        | _ => throw "outputs written but the model's oldest call has not returned"
+    | [] => throw "outputs written but the model has no batch in flight"
   | _ => throw s!"unknown event {name}"
 
 partial def loop (h : IO.FS.Stream) (st : St) : IO Unit := do
